@@ -104,7 +104,10 @@ def run_compdec(sx, cfg, env):
     if rp.overlap or cfg["name"] in ("overlap", "overlap-three"):
         return
     sx.cover("justified")
-    sx.require(len(rp.bytes) <= len(msg), "returned-values-need-no-more-bytes-than-the-message-has")
+    # (the bytes of the reference layout that carry no described bit at all - the padding between
+    # the counter of an empty field and its OFFSET - are not "values")
+    need = max([i + 1 for i in range(len(rp.bytes)) if rp.mask[i]] or [0])
+    sx.require(need <= len(msg), "returned-values-need-no-more-bytes-than-the-message-has")
     for i in range(min(len(rp.bytes), len(msg))):
         # a coded constant that does not match only warns in odxtools: constants are not compared
         m = rp.mask[i] & ~renv["const_bits"].get(i, 0) & 0xFF
@@ -265,7 +268,7 @@ def configs(tier, seed):
                 out.append(dict(base, id=f"layers/{name}/len{n}/other", not_first=firsts))
             else:
                 out.append(dict(base, id=f"layers/{name}/len{n}"))
-    for what, table in (("request", _cp.COMPOSITES),
+    for what, table in (("request", {**_cp.COMPOSITES, "table-empty-row": _cp.EXTRA_REQUESTS["table-empty-row"]}),
                         ("response", {**_cp.RESPONSES, **_cp.DECODE_ONLY_RESPONSES})):
         for name in table:
             for n in range(0, (7 if tier == "quick" else 10)):
